@@ -21,6 +21,8 @@ def frac(v):
         return F(int(v))
     if isinstance(v, numbers.Integral):
         return F(int(v))
+    if hasattr(v, "p") and hasattr(v, "q") and getattr(v, "is_Rational", False):      # sympy Integer / Rational
+        return F(int(v.p), int(v.q))
     return F(float(v))
 
 
